@@ -33,11 +33,13 @@ class Cov(np.ndarray):
         if not np.allclose(buf, buf.T):
             raise ValueError("Non-symmetric covariance")
 
+        if isinstance(frame, str) and frame not in ("TNW", "QSW"):
+            frame = get_frame(frame)
+
         obj = np.ndarray.__new__(cls, (6, 6), buffer=buf, dtype=float)
         obj._data = {}
         obj._frame = frame
         obj.orb = orb
-        obj._orb_frame = orb.frame
 
         return obj
 
@@ -146,8 +148,6 @@ class Cov(np.ndarray):
 
         self.base.setfield(cov, dtype=float)
         self._data["frame"] = frame
-        if frame not in ("TNW", "QSW"):
-            self.orb.frame = frame
 
     @property
     def _frame(self):
@@ -157,6 +157,14 @@ class Cov(np.ndarray):
     @_frame.setter
     def _frame(self, value):
         self._data["frame"] = value
+
+    @property
+    def _orb_frame(self):
+        """Frame of the private copy of the state, to which the covariance is
+        attached. This copy never changes frame: the local orbital frames are always
+        defined by the position and velocity at the attachment
+        """
+        return self._data["orb"].frame
 
     @property
     def orb(self):
